@@ -23,6 +23,11 @@ class of the module (inheritance resolved here with a C3 linearisation over the 
                   those whose last store is the constant ``None``, ``params`` the others, ``frozen``
                   the params stored through ``Matrix.__init__``'s kwargs loop *and* that loop sets
                   ``v.flags.writeable = False`` on arrays
+* ``frozenExplicit``  attributes made read-only by an explicit ``....flags.writeable = False`` statement: in a
+                  method effective for the class that also assigns ``self.X`` (lazy fill: ``self.X.flags.writeable =
+                  False`` or ``for a in self.X: a.flags.writeable = False``), or in an ``__init__`` of the chain on the
+                  local name that is then stored (``n.flags.writeable = False`` / ``for a in (n, *m): a.flags... = False``
+                  followed by ``self.X = n``)
 * ``aliases``     property name -> stored attribute, read off ``@property def x(self): ... return
                   self._x`` bodies (pure alias, or the lazy shape ``if self._x is None: ...``)
 * ``handAliases`` the small hand-written map below (same object stored under two names by the
@@ -70,6 +75,8 @@ def hash_array(array):
         or array.dtype == np.bool_
     ):
         array = array.astype(np.float64)
+    if array.dtype == np.float64:
+        array = array + 0.0
     if XXHASH_AVAILABLE:
         h = xxhash.xxh64()
         h.update(array.view(np.byte).data)
@@ -554,6 +561,56 @@ def _kwargs_loop_effect(st, selfname, k, v):
 
 
 # ---------------------------------------------------------------------------------------------
+# explicit freezes
+
+
+def _is_freeze(st, of):
+    """`<of>.flags.writeable = False`"""
+    return (
+        isinstance(st, ast.Assign) and len(st.targets) == 1
+        and ast.unparse(st.targets[0]) == f"{of}.flags.writeable"
+        and isinstance(st.value, ast.Constant) and st.value.value is False
+    )
+
+
+def explicit_freezes(fn):
+    """Attributes of self made read-only by explicit statements of `fn` (see module docstring)."""
+    if not fn.args.args:
+        return []
+    s = fn.args.args[0].arg
+    stored = {}  # attr -> local name it was stored from (or None)
+    for n in ast.walk(fn):
+        if isinstance(n, ast.Assign):
+            for t in n.targets:
+                for x in _self_store_targets(t, s):
+                    stored[x] = n.value.id if isinstance(n.value, ast.Name) and not isinstance(t, ast.Tuple | ast.List) else None
+    frozen_self, frozen_local = set(), set()
+    for n in ast.walk(fn):
+        if isinstance(n, ast.Assign) and len(n.targets) == 1 and isinstance(n.value, ast.Constant) and n.value.value is False:
+            t = ast.unparse(n.targets[0])
+            if t.endswith(".flags.writeable"):
+                base = t[: -len(".flags.writeable")]
+                if base.startswith(s + ".") and base.count(".") == 1:
+                    frozen_self.add(base.split(".")[1])
+                elif "." not in base:
+                    frozen_local.add(base)
+        if isinstance(n, ast.For) and isinstance(n.target, ast.Name) and any(_is_freeze(b, n.target.id) for b in n.body):
+            it = n.iter
+            f = _is_field_safe(it, s)
+            if f:
+                frozen_self.add(f)
+            elif isinstance(it, ast.Tuple):
+                for e in it.elts:
+                    e = e.value if isinstance(e, ast.Starred) else e
+                    if isinstance(e, ast.Name):
+                        frozen_local.add(e.id)
+    # a local frozen inside a `for v in ...` loop variable is not a parameter name: harmless extra
+    out = [x for x in frozen_self if x in stored]
+    out += [x for x, loc in stored.items() if loc is not None and loc in frozen_local]
+    return _uniq(out)
+
+
+# ---------------------------------------------------------------------------------------------
 # aliases
 
 
@@ -619,8 +676,8 @@ def hand_aliases_for(mro, classes):
 
 def hash_array_by_value(repo: Path) -> bool:
     """`mici.utils.hash_array` has exactly the expected shape: real-valued arrays (integer / floating /
-    bool dtype) are cast to float64 before their bytes are hashed, so the hash is a function of the
-    VALUES, as `np.array_equal` is."""
+    bool dtype) are cast to float64 and negative zeros mapped to positive zeros (`array + 0.0`) before
+    their bytes are hashed, so the hash is a function of the VALUES, as `np.array_equal` is."""
     try:
         tree = ast.parse((Path(repo) / UTILS).read_text())
     except (OSError, SyntaxError):
@@ -727,6 +784,20 @@ def extract(repo: Path) -> list[dict]:
                 elif "property" not in _decorators(m):
                     why.append(f"attribute {u} used by eq/hash is a method")
         hand = [p for p in hand_aliases_for(mro, classes)]
+        # explicit freezes: effective (non-__init__) members + every __init__ of the chain
+        fx = []
+        member_names = _uniq([mn for cn in mro for mn in classes[cn].members])
+        for mn in member_names:
+            if mn == "__init__":
+                continue
+            _, m = _lookup(mro, classes, mn)
+            if isinstance(m, ast.FunctionDef):
+                fx += explicit_freezes(m)
+        for owner in _uniq([ev[3] for ev in events]):
+            m = classes[owner].members.get("__init__")
+            if isinstance(m, ast.FunctionDef):
+                fx += explicit_freezes(m)
+        fx = [x for x in _uniq(fx) if x in last]
         table.append({
             "name": name,
             "abstract": abstract,
@@ -743,6 +814,7 @@ def extract(repo: Path) -> list[dict]:
             "params": params,
             "caches": caches,
             "frozen": frozen,
+            "frozenExplicit": fx,
             "aliases": aliases,
             "handAliases": hand,
         })
@@ -753,7 +825,7 @@ def _unknown_entry(name, why):
     return {
         "name": name, "abstract": False, "mro": [name], "hashFrom": "", "eqFrom": "", "dunderOk": False,
         "hashByValue": False, "hashFields": [], "eqFields": [], "eqSameName": False, "unknown": True, "unknownWhy": why,
-        "params": [], "caches": [], "frozen": [], "aliases": [], "handAliases": [],
+        "params": [], "caches": [], "frozen": [], "frozenExplicit": [], "aliases": [], "handAliases": [],
     }
 
 
@@ -817,6 +889,7 @@ def render(table) -> str:
             "    params := " + _ls(e["params"]) + ",\n"
             "    caches := " + _ls(e["caches"]) + ",\n"
             "    frozen := " + _ls(e["frozen"]) + ",\n"
+            "    frozenExplicit := " + _ls(e["frozenExplicit"]) + ",\n"
             "    aliases := " + _lp(e["aliases"]) + ",\n"
             "    handAliases := " + _lp(e["handAliases"]) + " }"
         )
